@@ -480,6 +480,34 @@ for pg in groups:
     for _ in range(1 if TIER == "quick" else 4):
         do_pdf_sym(pg)
 
+# ---- vector arrays with two or more axes: the i-th weight (weights are flat, in the row-major order of the vectors) belongs to
+# the i-th vector; the histogram equals the one of the same vectors given as a 1-D array
+for shape in ((6, 7), (3, 4, 5), (2, 30), (5, 1, 4)):
+    n = int(np.prod(shape))
+    vs = np.array([rand_vec(R) for _ in range(n)])
+    ws = np.array([R.choice([0.0, 0.5, 1.0, 3.0, 7.5]) for _ in range(n)])
+    ws[1] = 13.0
+    for hemi in ("upper", "lower"):
+        res, sigma = R.choice([(10, 0), (15, 10), (9, 6)])
+        st("pdf/nd-vectors")
+        rep = {"shape": list(shape), "resolution": res, "sigma": sigma, "hemisphere": hemi, "weights": ws.tolist(), "v": vs.tolist()}
+        try:
+            h1, _ = pole_density_function(Vector3d(vs.copy()), resolution=res, sigma=sigma, weights=ws, hemisphere=hemi, mrd=False)
+            hn, _ = pole_density_function(Vector3d(vs.reshape(shape + (3,)).copy()), resolution=res, sigma=sigma, weights=ws,
+                                          hemisphere=hemi, mrd=False)
+            a1 = np.nan_to_num(np.ma.filled(np.ma.masked_invalid(h1), 0.0))
+            an = np.nan_to_num(np.ma.filled(np.ma.masked_invalid(hn), 0.0))
+            if a1.shape != an.shape or not np.allclose(a1, an, atol=1e-9):
+                fail("pdf:nd-vectors:differs-from-1d", f"the pole density of vectors of shape {shape} with weights differs from the density of the "
+                     "same vectors and weights given as a 1-D array (weights attached to the wrong vectors)", rep)
+            z = vs[:, 2]
+            tot = float(ws[z > 1e-9].sum() if hemi == "upper" else ws[z < -1e-9].sum())
+            if sigma == 0 and abs(float(an.sum()) - tot) > 1e-6 * max(1.0, tot) + float(ws[np.abs(z) <= 1e-9].sum()):
+                fail("pdf:weight-conservation", f"histogram total {float(an.sum()):.6f} != weight of the vectors in the hemisphere {tot:.6f} "
+                     f"for vectors of shape {shape}", rep)
+        except Exception as e:  # noqa
+            fail("pdf:nd-vectors:raises", f"{type(e).__name__}: {e}", rep)
+
 # ---- secondary entry points: the density drawn by Vector3d.pole_density_function / StereographicPlot.pole_density_function
 # must be the histogram orix.measure.pole_density_function computes for the same vectors, weights, resolution and
 # smoothing (read back from the QuadMesh of the axes)
@@ -510,6 +538,510 @@ try:
             if got.shape != want_.shape or not np.allclose(np.nan_to_num(got), np.nan_to_num(want_), atol=1e-9):
                 fail("pdf:plot-entry:differs-from-measure", "the density drawn by Vector3d.pole_density_function(weights=...) is not the "
                      "histogram of orix.measure.pole_density_function for the same arguments", rep)
+except ImportError:
+    st("pdf/plot-entry:matplotlib-missing")
+
+
+# =====================================================================================
+# Audit strata (coverage holes of the strata above): arrays with >= 2 axes / size-1 axes /
+# integer dtype, the spherical entry points (spherical2xy, spherical2xy_split, xy2spherical,
+# StereographicProjection.inverse), scalar / list / tuple arguments, the (azimuth, polar)
+# form and the keyword paths of pole_density_function, a deterministic grid of
+# hemisphere x weight kind, the folded density for non-unit / short / Miller / n-d input,
+# and the remaining plotting wrappers.  They draw from R only AFTER everything above, so
+# the cases of the Coq correspondence are unchanged.  Parameter combinations are cycled.
+# =====================================================================================
+def gen_vector_clear():
+    """gen_vector, but never within float noise of the +-1e-9 threshold of the hemisphere test
+    (so that the brute-force selection below cannot disagree on a rounding)"""
+    while True:
+        s, v = gen_vector()
+        n = norm(v)
+        if n == 0 or abs(abs(v[2] / n) - 1e-9) > 1e-11:
+            return s, v
+
+
+def gen_int_vector():
+    return [R.choice([-3, -2, -1, 0, 0, 1, 1, 2, 5]) for _ in range(3)]
+
+
+def ref_unit(v):
+    n = norm(v)
+    return [float(c) / n for c in v] if n > 0 else [0.0, 0.0, 0.0]
+
+
+def ref_project(vs, pole):
+    """brute force: points of the vectors on the hemisphere of `pole` (row-major order)"""
+    pts = []
+    for v in vs:
+        u = ref_unit(v)
+        if -pole * u[2] > -1e-9:
+            den = u[2] - pole
+            pts.append([0.0, 0.0] if den == 0 else [-pole * u[0] / den, -pole * u[1] / den])
+    return pts
+
+
+def pts_differ(got, ref, tol=1e-9):
+    if len(got) != len(ref):
+        return f"{len(got)} points returned, {len(ref)} expected"
+    for k, (g, r_) in enumerate(zip(got, ref)):
+        if not (abs(g[0] - r_[0]) <= tol and abs(g[1] - r_[1]) <= tol):
+            return f"point {k}: {g} != expected {r_}"
+    return None
+
+
+def ang_diff(a, b, full):
+    d = abs(a - b) % full
+    return min(d, full - d)
+
+
+SHAPES = [(2, 3), (1, 5), (4, 1), (3, 1, 2), (2, 2, 2), (1, 1, 1), (2, 1, 3, 1), (1,), (7,)]
+
+
+def do_shapes(i):
+    """n-d / size-1-axis / integer arrays through vector2xy, vector2xy_split, to_polar, from_polar and the
+    azimuth / polar / radial properties, against per-vector brute force; the operand stays untouched"""
+    shape = SHAPES[i % len(SHAPES)]
+    pole = (-1, 1)[(i // len(SHAPES) + i) % 2]
+    deg = (i // 2) % 2 == 1
+    integer = i % 4 == 3
+    size = int(np.prod(shape))
+    vs = [gen_int_vector() if integer else gen_vector_clear()[1] for _ in range(size)]
+    st(f"shape/{len(shape)}-axes" + ("/size-1-axis" if 1 in shape and len(shape) > 1 else "") + ("/int" if integer else ""))
+    arr = np.array(vs, dtype=(np.int64 if integer else float)).reshape(shape + (3,))
+    keep = arr.copy()
+    V = Vector3d(arr)
+    rep = {"shape": list(shape), "pole": pole, "degrees": deg, "dtype": str(arr.dtype), "vs": vs}
+    sp = StereographicProjection(pole)
+    x, y = sp.vector2xy(V)
+    bad = pts_differ([[float(a), float(b)] for a, b in zip(np.ravel(x), np.ravel(y))], ref_project(vs, pole))
+    if bad:
+        fail("vector2xy:nd-shape", f"vector2xy(pole={pole}) of a Vector3d of shape {shape} ({arr.dtype}): {bad} (brute force on "
+             f"the row-major list of vectors)", rep)
+    xu, yu, xl, yl = StereographicProjection.vector2xy_split(V)
+    for tag2, gx, gy, p in (("upper", xu, yu, -1), ("lower", xl, yl, 1)):
+        bad = pts_differ([[float(a), float(b)] for a, b in zip(np.ravel(gx), np.ravel(gy))], ref_project(vs, p))
+        if bad:
+            fail("split:nd-shape", f"vector2xy_split {tag2} set of a Vector3d of shape {shape} ({arr.dtype}): {bad}", rep)
+            break
+    # spherical coordinates keep the shape, agree with atan2 / acos, and round-trip
+    a, p, r = V.to_polar(degrees=deg)
+    pa, pp, pr = V.azimuth, V.polar, V.radial
+    full = 360.0 if deg else 2 * math.pi
+    k_ = 180.0 / math.pi if deg else 1.0
+    if not (np.shape(a) == shape and np.shape(p) == shape and np.shape(r) == shape):
+        fail("to_polar:nd-shape", f"to_polar of shape {shape} returns shapes {np.shape(a)}, {np.shape(p)}, {np.shape(r)}", rep)
+    else:
+        ea, ep_ = (np.rad2deg(pa), np.rad2deg(pp)) if deg else (pa, pp)
+        if not (np.array_equal(ea, a, equal_nan=True) and np.array_equal(ep_, p, equal_nan=True)
+                and np.array_equal(pr, r, equal_nan=True)):
+            fail("to_polar:properties", f"to_polar(degrees={deg}) differs from the azimuth / polar / radial properties", rep)
+        for v, a1, p1, r1 in zip(vs, np.ravel(a), np.ravel(p), np.ravel(r)):
+            n = norm(v)
+            if n == 0:
+                continue
+            okr = abs(r1 - n) <= 1e-12 * n
+            okp = abs(p1 - k_ * math.acos(max(-1.0, min(1.0, v[2] / n)))) <= 1e-7 * full
+            oka = True
+            hyp = math.hypot(v[0], v[1])
+            if hyp > 1e-6 * n:
+                # (a component below 1e-8 |v| is rounded to 0 by Vector3d.azimuth: at most 1e-8 |v| / hyp radians)
+                oka = (ang_diff(a1, k_ * math.atan2(v[1], v[0]), full) <= 1e-7 * full + 2.1e-8 * n / hyp * k_
+                       and 0 <= a1 <= full)
+            if not (okr and okp and oka):
+                fail("to_polar:nd-shape", f"to_polar(degrees={deg}) of {v} inside an array of shape {shape} ({arr.dtype}) = "
+                     f"{(float(a1), float(p1), float(r1))}", rep)
+                break
+        w = Vector3d.from_polar(a, p, r, degrees=deg)
+        if w.shape != shape:
+            fail("from_polar:nd-shape", f"from_polar of angle arrays of shape {shape} has shape {w.shape}", rep)
+        else:
+            for v, b in zip(vs, w.data.reshape(-1, 3)):
+                n = norm(v)
+                if n and not all(abs(float(x_) - y_) <= 1e-7 * n for x_, y_ in zip(b, v)):
+                    fail("to_polar:roundtrip:nd-shape", f"from_polar(to_polar(v)) = {b.tolist()} != v = {v} inside an array of "
+                         f"shape {shape} ({arr.dtype}, degrees={deg})", rep)
+                    break
+    if not (np.array_equal(V.data, keep) and V.data.dtype == keep.dtype):
+        fail("history:operand-modified", "projecting / converting a Vector3d changed its data", rep)
+
+
+def sph_vec(a, p):
+    return [math.cos(a) * math.sin(p), math.sin(a) * math.sin(p), math.cos(p)]
+
+
+FORMS = ["array", "list", "tuple", "scalar", "int-degrees"]
+
+
+def do_spherical(i):
+    """spherical2xy, spherical2xy_split, xy2spherical, .inverse, and from_polar / xy2vector with list, tuple, scalar
+    and integer arguments: pole x degrees x argument form cycled"""
+    pole = (-1, 1)[i % 2]
+    deg = (i // 2) % 2 == 1
+    form = FORMS[(i // 4) % len(FORMS)]
+    if form == "int-degrees":
+        deg = True
+    n = 1 if form == "scalar" else R.randint(1, 7)
+    angs = []
+    for _ in range(n):
+        s = R.choice(["generic", "generic", "pole", "equator", "other-hemisphere", "azimuth-edge"])
+        a = R.uniform(0, 2 * math.pi)
+        p = R.uniform(0.05, math.pi - 0.05)
+        if s == "pole":
+            p = R.choice([0.0, math.pi])
+        elif s == "equator":
+            p = math.pi / 2
+        elif s == "azimuth-edge":
+            a = R.choice([0.0, math.pi / 2, math.pi, 1.5 * math.pi])
+        if abs(abs(math.cos(p)) - 1e-9) < 1e-11:
+            p = 1.0
+        if form == "int-degrees":
+            a, p = float(R.randrange(0, 360)), float(R.choice([0, 180, 90] + [R.randrange(1, 180)] * 5))
+        elif deg:
+            a, p = math.degrees(a), math.degrees(p)
+        angs.append([a, p])
+    st(f"spherical/{form}/deg={deg}/pole={pole}")
+    A = [q[0] for q in angs]; Pp = [q[1] for q in angs]
+    if form == "array":
+        aa, pa = np.array(A), np.array(Pp)
+    elif form == "list":
+        aa, pa = list(A), list(Pp)
+    elif form == "tuple":
+        aa, pa = tuple(A), tuple(Pp)
+    elif form == "scalar":
+        aa, pa = A[0], Pp[0]
+    else:
+        aa, pa = np.array(A, dtype=np.int64), [int(q) for q in Pp]
+    rep = {"pole": pole, "degrees": deg, "form": form, "azimuth_polar": angs}
+    k_ = math.pi / 180 if deg else 1.0
+    vs = [sph_vec(a * k_, p * k_) for a, p in angs]
+    # from_polar in this argument form
+    fv = Vector3d.from_polar(aa, pa, degrees=deg).data.reshape(-1, 3)
+    if fv.shape[0] != n or np.max(np.abs(fv - np.array(vs))) > 1e-12:
+        fail("from_polar:argument-form", f"from_polar({form} arguments, degrees={deg}) = {fv.tolist()} != {vs}", rep)
+    sp = StereographicProjection(pole)
+    x, y = sp.spherical2xy(aa, pa, degrees=deg)
+    got = [[float(a), float(b)] for a, b in zip(np.ravel(x), np.ravel(y))]
+    bad = pts_differ(got, ref_project(vs, pole))
+    if bad:
+        fail("spherical2xy:value", f"spherical2xy({form} arguments, degrees={deg}, pole={pole}): {bad}", rep)
+        return
+    xu, yu, xl, yl = sp.spherical2xy_split(aa, pa, degrees=deg)
+    for tag2, gx, gy, p in (("upper", xu, yu, -1), ("lower", xl, yl, 1)):
+        bad = pts_differ([[float(a), float(b)] for a, b in zip(np.ravel(gx), np.ravel(gy))], ref_project(vs, p))
+        if bad:
+            fail("spherical2xy_split:value", f"spherical2xy_split({form} arguments, degrees={deg}) {tag2} set: {bad}", rep)
+            return
+    # back: xy2spherical of the projected points returns the angles of the selected directions
+    inv = sp.inverse
+    if not isinstance(inv, InverseStereographicProjection) or inv.pole != pole:
+        fail("inverse-property:pole", f"StereographicProjection({pole}).inverse has pole {getattr(inv, 'pole', None)}", rep)
+        return
+    sel = [(a, p, v) for (a, p), v in zip(angs, vs) if -pole * v[2] > -1e-9]
+    full = 360.0 if deg else 2 * math.pi
+    if got:
+        gx, gy = np.array([g[0] for g in got]), np.array([g[1] for g in got])
+        if form == "scalar":
+            a2, p2 = inv.xy2spherical(float(gx[0]), float(gy[0]), degrees=deg)
+            w2 = inv.xy2vector(float(gx[0]), float(gy[0])).data.reshape(-1, 3)
+        else:
+            a2, p2 = inv.xy2spherical(gx, gy, degrees=deg)
+            w2 = inv.xy2vector(gx, gy).data.reshape(-1, 3)
+        a2, p2 = np.ravel(a2), np.ravel(p2)
+        if len(a2) != len(sel) or len(w2) != len(sel):
+            fail("xy2spherical:value", f"xy2spherical returned {len(a2)} angles for {len(sel)} points", rep)
+            return
+        for (a, p, v), a1, p1, w1 in zip(sel, a2, p2, w2):
+            if not n_close(w1, v, 1e-9):
+                fail("spherical:roundtrip", f"xy2vector(spherical2xy({a}, {p})) = {w1.tolist()} != {v} (pole {pole}, degrees={deg})", rep)
+                return
+            if abs(p1 - p) > 1e-7 * full:
+                fail("xy2spherical:value", f"xy2spherical(spherical2xy({a}, {p})) has polar angle {float(p1)} (pole {pole}, "
+                     f"degrees={deg})", rep)
+                return
+            if math.hypot(v[0], v[1]) > 1e-6 and ang_diff(float(a1), a, full) > 1e-7 * full:
+                fail("xy2spherical:value", f"xy2spherical(spherical2xy({a}, {p})) has azimuth {float(a1)} (pole {pole}, "
+                     f"degrees={deg})", rep)
+                return
+    # plane points with integer coordinates: the same vectors as with floats
+    xi = np.array([R.randrange(-3, 4) for _ in range(4)]); yi = np.array([R.randrange(-3, 4) for _ in range(4)])
+    wi = InverseStereographicProjection(pole).xy2vector(xi, yi).data
+    for X, Y, w1 in zip(xi.tolist(), yi.tolist(), wi):
+        d = 1 + X * X + Y * Y
+        if not n_close(w1, [2 * X / d, 2 * Y / d, -pole * (1 - X * X - Y * Y) / d], 1e-12):
+            fail("xy2vector:integer-input", f"xy2vector({X}, {Y}) (integer arrays, pole {pole}) = {w1.tolist()}", rep)
+            return
+
+
+def hemi_weight(vs, ws, hemi):
+    tot = 0.0
+    for v, w in zip(vs, ws):
+        n = norm(v)
+        if n == 0:
+            continue
+        z = v[2] / n
+        if (z >= 0 if hemi == "upper" else z <= 0):
+            tot += w
+    return tot
+
+
+PDF_SHAPES = [(6, 7), (3, 4, 5), (2, 30), (1, 12), (5, 1), (2, 1, 3)]
+
+
+def do_pdf_shapes(i):
+    """vectors (or azimuth / polar arrays) with >= 2 axes and non-uniform flat weights: the histogram is the
+    one of the row-major list of vectors (brute-force total + bin by bin against the 1-d call)"""
+    shape = PDF_SHAPES[i % len(PDF_SHAPES)]
+    entry = ("vector", "angles")[(i // len(PDF_SHAPES)) % 2]
+    hemi = ("upper", "lower")[(i + i // len(PDF_SHAPES) + i // (2 * len(PDF_SHAPES))) % 2]
+    res, sigma = [(10.0, 5.0), (15.0, 0.0), (30.0, 20.0), (7.5, 7.5)][i % 4]
+    size = int(np.prod(shape))
+    vs = [[k * c for c in rand_unit()] for k in [R.choice([1.0, 1.0, 0.3, 17.0]) for _ in range(size)]]
+    ws = [R.choice([0.0, 0.25, 1.0, 3.0, 40.0]) * R.uniform(0.5, 1.5) for _ in range(size)]
+    ws[R.randrange(size)] = 500.0        # one dominant vector: a permutation of the weights is visible
+    st(f"pdf/nd-shape/{len(shape)}-axes/{entry}/{hemi}")
+    flat = np.array(vs, dtype=float)
+    wa = np.array(ws)
+    rep = {"shape": list(shape), "entry": entry, "vs": vs, "ws": ws, "resolution": res, "sigma": sigma, "hemisphere": hemi}
+    ref, _ = pole_density_function(Vector3d(flat.copy()), resolution=res, sigma=sigma, weights=wa.copy(), hemisphere=hemi, mrd=False)
+    if entry == "vector":
+        h, _ = pole_density_function(Vector3d(flat.reshape(shape + (3,)).copy()), resolution=res, sigma=sigma,
+                                     weights=wa.copy(), hemisphere=hemi, mrd=False)
+    else:
+        az, po, _ = Vector3d(flat.copy()).to_polar()
+        h, _ = pole_density_function(az.reshape(shape), po.reshape(shape), resolution=res, sigma=sigma,
+                                     weights=wa.copy(), hemisphere=hemi, mrd=False)
+    inside = hemi_weight(vs, ws, hemi)
+    d, dr = np.ma.getdata(h), np.ma.getdata(ref)
+    if abs(float(d.sum()) - inside) > 1e-9 * max(1.0, inside):
+        fail("pdf:nd-shape:weight-conservation", f"sum of the histogram {float(d.sum())} != total weight {inside} of the vectors "
+             f"on the {hemi} hemisphere for {entry} input of shape {shape} with flat weights", rep)
+    elif d.shape != dr.shape or not np.allclose(d, dr, rtol=1e-9, atol=1e-9 * max(1.0, inside)):
+        fail("pdf:nd-shape:weights-misassigned", f"the histogram of {entry} input of shape {shape} with flat (row-major) weights "
+             f"differs from the histogram of the same vectors as a 1-d list", rep)
+
+
+WKINDS = ["none", "positive", "some-zero", "negative", "integer", "constant"]
+
+
+def do_pdf_grid(i):
+    """hemisphere x weight kind x vector dtype cycled (the random draws of do_pdf leave most combinations out),
+    vectors from ALL strata (equator, poles, short, zero); keyword paths log= and hemisphere in any case"""
+    hemi = ("upper", "lower")[i % 2]
+    wk = WKINDS[(i // 2) % len(WKINDS)]
+    integer = (i // (2 * len(WKINDS))) % 2 == 1
+    res, sigma = [(30.0, 10.0), (45.0, 0.0), (11.0, 20.0), (15.0, 2.0), (90.0, 30.0)][i % 5]
+    n = R.choice([6, 25, 60])
+    vs = [gen_int_vector() if integer else gen_vector()[1] for _ in range(n)]
+    vs.append([1, 0, 0] if integer else [0.0, -2.0, 0.0])       # always: an exactly equatorial vector
+    vs.append([0, 0, -2] if integer else [0.0, 0.0, 1.0])
+    if wk == "none":
+        ws = None
+    elif wk == "positive":
+        ws = [R.uniform(0.1, 3) for _ in vs]
+    elif wk == "some-zero":
+        ws = [R.choice([0.0, 0.0, 1.0, 2.5]) for _ in vs]
+    elif wk == "negative":
+        ws = [R.uniform(-2, 3) for _ in vs]
+    elif wk == "integer":
+        ws = [R.randrange(0, 5) for _ in vs]
+    else:
+        ws = [2.5 for _ in vs]
+    st(f"pdf/grid/{hemi}/weights={wk}" + ("/int-vectors" if integer else ""))
+    arr = np.array(vs, dtype=(np.int64 if integer else float))
+    wa = None if ws is None else np.array(ws, dtype=(np.int64 if wk == "integer" else float))
+    w1 = [1.0] * len(vs) if ws is None else [float(w) for w in ws]
+    rep = {"vs": vs, "ws": ws, "resolution": res, "sigma": sigma, "hemisphere": hemi, "vector_dtype": str(arr.dtype)}
+
+    def call(**kw):
+        return pole_density_function(Vector3d(arr.copy()), resolution=res, sigma=sigma,
+                                     weights=None if wa is None else wa.copy(), **kw)[0]
+    h0 = call(hemisphere=hemi, mrd=False)
+    inside = hemi_weight(vs, w1, hemi)
+    scale = max(1.0, sum(abs(w) for w in w1))
+    d0 = np.ma.getdata(h0)
+    if abs(float(d0.sum()) - inside) > 1e-9 * scale:
+        fail("pdf:grid:weight-conservation", f"sum of the histogram {float(d0.sum())} != total weight {inside} of the vectors on the "
+             f"{hemi} hemisphere (weights {wk}, vectors {arr.dtype}, resolution {res}, sigma {sigma})", rep)
+        return
+    if wk != "negative" and float(d0.min()) < -1e-12 * scale:
+        fail("pdf:grid:non-negative", f"negative bin {float(d0.min())} (weights {wk})", rep)
+    if abs(inside) > 1e-3 * scale:
+        h1 = call(hemisphere=hemi, mrd=True)
+        if abs(float(h1.mean()) - 1) > 1e-9:
+            fail("pdf:grid:mrd-mean", f"MRD histogram averages to {float(h1.mean())} (weights {wk}, {hemi})", rep)
+        elif not np.allclose(np.ma.getdata(h1) * float(d0.mean()), d0, rtol=1e-9, atol=1e-12 * scale):
+            fail("pdf:grid:mrd-proportional", "the MRD histogram is not the count histogram divided by its mean", rep)
+        if wk != "negative":
+            hl = call(hemisphere=hemi, mrd=True, log=True)
+            if not np.allclose(np.ma.getdata(hl), np.log(np.ma.getdata(h1) + 1), rtol=1e-9, atol=1e-12):
+                fail("pdf:grid:log", "pole_density_function(log=True) is not log(density + 1)", rep)
+    hc = call(hemisphere=(hemi.upper() if i % 4 < 2 else hemi.capitalize()), mrd=False)
+    if not np.array_equal(np.ma.getdata(hc), d0):
+        fail("pdf:grid:hemisphere-case", f"hemisphere={hemi.upper()!r} gives another histogram than {hemi!r}", rep)
+    if wk == "constant":
+        hn = pole_density_function(Vector3d(arr.copy()), resolution=res, sigma=sigma, hemisphere=hemi, mrd=False)[0]
+        if not np.allclose(np.ma.getdata(hn) * 2.5, d0, rtol=1e-9, atol=1e-12 * scale):
+            fail("pdf:grid:weights-none", "weights=None is not the histogram of unit weights", rep)
+
+
+_BAD_FOLD = {"m11", "1m1", "-6m2", "23", "m-3", "432"}       # known findings (sector / projection, see C07)
+_FOLD_GROUPS = [g for g in osym._groups if g.name not in _BAD_FOLD]
+
+
+def do_pdf_sym_inputs(i):
+    """folded density for the input classes do_pdf_sym leaves out (it folds 1-d unit Vector3d with weights):
+    non-unit and short vectors, weights=None, n-d shape, Miller input, the (azimuth, polar) form"""
+    pg = _FOLD_GROUPS[(5 * i + 3) % len(_FOLD_GROUPS)]
+    kind = ["nonunit", "short", "nd-shape", "miller", "no-weights", "nonunit"][i % 6]
+    res, sigma = [(10.0, 5.0), (20.0, 10.0), (15.0, 0.0)][i % 3]
+    n = 48
+    V, W, idx = sector_vectors(pg, n)
+    ws = np.array([R.uniform(0.2, 2) for _ in range(n)])
+    ws[R.randrange(n)] = 60.0
+    st(f"pdfsym-input/{kind}")
+    rep = {"group": pg.name, "kind": kind, "vs": V.data.tolist(), "sym_index": idx, "ws": ws.tolist(), "resolution": res,
+           "sigma": sigma}
+    kw = dict(resolution=res, sigma=sigma, symmetry=pg, mrd=False)
+    ref = np.ma.getdata(pole_density_function(Vector3d(V.data.copy()), weights=ws.copy(), **kw)[0])
+    tot = float(ws.sum())
+
+    def same(h):
+        d = np.ma.getdata(h)
+        return d.shape == ref.shape and np.allclose(d, ref, rtol=1e-7, atol=1e-9 * tot)
+    if kind in ("nonunit", "short"):
+        # equivalent directions of another length (both sets scaled: the vectors stay symmetry-equivalent)
+        if kind == "nonunit":
+            k = [0.3, 2.0, 17.0, 1e4, 1e-3][(2 * (i // 6) + (i % 6 == 5)) % 5]
+        else:
+            k = [1e-10, 3e-12][(i // 6) % 2]
+        rep["scale"] = k
+        hv = pole_density_function(Vector3d(V.data * k), weights=ws.copy(), **kw)[0]
+        hw = pole_density_function(Vector3d(W.data * k), weights=ws.copy(), **kw)[0]
+        dv, dw = np.ma.getdata(hv), np.ma.getdata(hw)
+        if not np.allclose(dv, dw, rtol=1e-7, atol=1e-9 * tot):
+            f1 = Vector3d(V.data * k).in_fundamental_sector(pg).unit.data
+            f2 = Vector3d(W.data * k).in_fundamental_sector(pg).unit.data
+            bad = np.where(np.abs(f1 - f2).max(axis=1) > 1e-6)[0]
+            if bad.size:
+                j = int(bad[0])
+                fail(f"pdf:symmetry:invariance:{kind}-vectors:{pg.name}",
+                     f"pole density with symmetry {pg.name} of vectors of length {k} changes when they are replaced by "
+                     f"symmetry-equivalent ones: {(V.data[j] * k).tolist()} and {(W.data[j] * k).tolist()} are folded to "
+                     f"different directions {f1[j].tolist()} / {f2[j].tolist()}", rep)
+            else:
+                st("pdfsym-input/bin-edge-rounding-only")
+        elif not same(hv):
+            fail(f"pdf:symmetry:scale-dependent:{kind}-vectors:{pg.name}",
+                 f"pole density with symmetry {pg.name} depends on the length ({k}) of the vectors", rep)
+    elif kind == "nd-shape":
+        shape = [(6, 8), (2, 3, 8), (48, 1)][(i // 6) % 3]
+        h = pole_density_function(Vector3d(V.data.reshape(shape + (3,)).copy()), weights=ws.copy(), **kw)[0]
+        if not same(h):
+            fail("pdf:symmetry:nd-shape", f"folded density ({pg.name}) of a Vector3d of shape {shape} with flat weights differs from "
+                 f"the one of the same vectors as a 1-d list", rep)
+    elif kind == "miller":
+        from orix.crystal_map import Phase
+        from orix.vector import Miller
+        # the phase carries ANOTHER point group: the symmetry= argument decides, not the phase
+        other = osym.D6h if pg.name == "m-3m" else osym.Oh
+        m = Miller(xyz=V.data.copy(), phase=Phase(point_group=other))
+        h = pole_density_function(m, weights=ws.copy(), **kw)[0]
+        if not same(h):
+            fail("pdf:symmetry:miller-input", f"folded density ({pg.name}) of a Miller object differs from the one of the Vector3d "
+                 f"with the same Cartesian coordinates", rep)
+    else:
+        h1 = pole_density_function(Vector3d(V.data.copy()), **kw)[0]
+        h2 = pole_density_function(Vector3d(V.data.copy()), weights=np.ones(n), **kw)[0]
+        h3 = pole_density_function(Vector3d(W.data.copy()), **kw)[0]
+        if not np.allclose(np.ma.getdata(h1), np.ma.getdata(h2), rtol=1e-9, atol=1e-12 * n):
+            fail("pdf:symmetry:weights-none", f"folded density ({pg.name}) with weights=None is not the one with unit weights", rep)
+        elif not np.allclose(np.ma.getdata(h1), np.ma.getdata(h3), rtol=1e-7, atol=1e-9 * n):
+            f1 = Vector3d(V.data.copy()).in_fundamental_sector(pg).data
+            f2 = Vector3d(W.data.copy()).in_fundamental_sector(pg).data
+            if (np.abs(f1 - f2).max(axis=1) > 1e-6).any():
+                fail(f"pdf:symmetry:invariance:{pg.name}", f"unweighted pole density with symmetry {pg.name} changes when vectors "
+                     f"are replaced by symmetry-equivalent ones", rep)
+            else:
+                st("pdfsym-input/bin-edge-rounding-only")
+
+
+for i in range(18 if TIER == "quick" else 72):
+    do_shapes(i)
+for i in range(20 if TIER == "quick" else 80):
+    do_spherical(i)
+for i in range(12 if TIER == "quick" else 36):
+    do_pdf_shapes(i)
+for i in range(24 if TIER == "quick" else 96):
+    do_pdf_grid(i)
+for i in range(18 if TIER == "quick" else 90):
+    do_pdf_sym_inputs(i)
+
+# ---- the remaining plotting wrappers: hemisphere="both" and log= of Vector3d.pole_density_function, the axes method
+# called with a Vector3d, and the inverse pole figure (InversePoleFigurePlot.pole_density_function through
+# Vector3d.inverse_pole_density_function): the mesh drawn is the histogram of orix.measure.pole_density_function
+try:
+    import matplotlib.pyplot as plt
+
+    def mesh_of(ax):
+        qm = [c for c in ax.collections if type(c).__name__ == "QuadMesh"]
+        return None if not qm else np.ma.filled(np.ma.masked_invalid(qm[0].get_array()), np.nan).reshape(-1)
+
+    def mesh_differs(got, ref):
+        want_ = np.ma.filled(np.ma.masked_invalid(ref), np.nan).reshape(-1)
+        return (got is None or got.shape != want_.shape or not np.array_equal(np.isnan(got), np.isnan(want_))
+                or not np.allclose(np.nan_to_num(got), np.nan_to_num(want_), atol=1e-9))
+
+    for trial in range(2):
+        n = 36
+        vs = np.array([[k * c for c in rand_unit()] for k in [R.choice([1.0, 0.3, 17.0]) for _ in range(n)]])
+        ws = np.array([R.choice([0.0, 0.5, 1.0, 3.0, 7.5]) for _ in range(n)])
+        ws[1] = 25.0
+        res, sigma = [(9, 6), (12, 0)][trial]
+        log = trial == 0
+        rep = {"n": n, "resolution": res, "sigma": sigma, "log": log, "weights": ws.tolist(), "v": vs.tolist()}
+        st("pdf/plot-entry/both-hemispheres")
+        fig = Vector3d(vs.copy()).pole_density_function(resolution=res, sigma=sigma, weights=ws.copy(), hemisphere="both", log=log,
+                                                        colorbar=False, return_figure=True)
+        axs = [ax for ax in fig.axes if getattr(ax, "hemisphere", None) in ("upper", "lower")]
+        if sorted(ax.hemisphere for ax in axs) != ["lower", "upper"]:
+            fail("pdf:plot-entry:both:axes", "Vector3d.pole_density_function(hemisphere='both') did not draw one upper and one lower "
+                 "hemisphere", rep)
+        for ax in axs:
+            ref, _ = pole_density_function(Vector3d(vs.copy()), resolution=res, sigma=sigma, weights=ws.copy(),
+                                           hemisphere=ax.hemisphere, log=log)
+            if mesh_differs(mesh_of(ax), ref):
+                fail("pdf:plot-entry:both:differs-from-measure", f"the {ax.hemisphere} density drawn by Vector3d.pole_density_function("
+                     f"hemisphere='both', log={log}) is not the histogram of orix.measure.pole_density_function", rep)
+        plt.close(fig)
+        for hemi in ("upper", "lower"):
+            st("pdf/plot-entry/axes-method-vector")
+            fig, ax = plt.subplots(subplot_kw=dict(projection="stereographic"))
+            ax.hemisphere = hemi
+            ax.pole_density_function(Vector3d(vs.copy()), resolution=res, sigma=sigma, weights=ws.copy(), log=log, colorbar=False)
+            ref, _ = pole_density_function(Vector3d(vs.copy()), resolution=res, sigma=sigma, weights=ws.copy(), hemisphere=hemi,
+                                           log=log)
+            if mesh_differs(mesh_of(ax), ref):
+                fail("pdf:plot-entry:axes-method:differs-from-measure", f"StereographicPlot.pole_density_function(Vector3d, weights=..., "
+                     f"log={log}) on the {hemi} hemisphere does not draw the histogram of orix.measure.pole_density_function", rep)
+            plt.close(fig)
+        for pg in ([osym.Oh, osym.D6h] if trial == 0 else [osym.C2h, osym.D3d]):
+            st("pdf/plot-entry/ipf")
+            rep2 = dict(rep, group=pg.name)
+            fig = Vector3d(vs.copy()).inverse_pole_density_function(resolution=res, sigma=sigma, weights=ws.copy(), symmetry=pg,
+                                                                    log=log, colorbar=False, return_figure=True)
+            axs = [ax for ax in fig.axes if getattr(ax, "hemisphere", None) in ("upper", "lower")]
+            az, po, _ = Vector3d(vs.copy()).unit.to_polar()
+            ref, _ = pole_density_function(az, po, resolution=res, sigma=sigma, weights=ws.copy(), symmetry=pg, log=log)
+            refv = pole_density_function(Vector3d(vs.copy()), resolution=res, sigma=sigma, weights=ws.copy(), symmetry=pg, log=log)[0]
+            if not axs or mesh_differs(mesh_of(axs[0]), ref):
+                fail("pdf:plot-entry:ipf:differs-from-measure", f"the inverse pole density ({pg.name}) drawn by "
+                     f"Vector3d.inverse_pole_density_function(weights=..., log={log}) is not the folded histogram of "
+                     f"orix.measure.pole_density_function", rep2)
+            elif mesh_differs(np.ma.filled(np.ma.masked_invalid(ref), np.nan).reshape(-1), refv):
+                fail("pdf:symmetry:angles-entry", f"pole_density_function(azimuth, polar, symmetry={pg.name}) differs from "
+                     f"pole_density_function(Vector3d, symmetry={pg.name}) for the same directions", rep2)
+            plt.close(fig)
 except ImportError:
     st("pdf/plot-entry:matplotlib-missing")
 
